@@ -8,6 +8,7 @@ import (
 	"go/types"
 	"math"
 	"regexp"
+	"strconv"
 	"sort"
 	"strings"
 
@@ -4335,4 +4336,117 @@ func ruleC11TagIdentifier(c *ctx.Ctx, r *core.Reporter) {
 	r.Check(len(preds) > 0, "predicates", c.Pos(fd.Pos()), fmt.Sprintf("identifier characters are classified with unicode.%v", preds))
 	r.Check(!hasNumber, "no-IsNumber", c.Pos(site), "no character is admitted by unicode.IsNumber (category No — ², ½, ① — is not part of a JavaScript identifier: `.x²` does not parse)")
 	r.Check(!digitFirst, "digit-not-first", c.Pos(site), "a decimal digit is admitted only after the first character (`.1a` does not parse)")
+}
+
+// ruleOperandOrder: Go evaluates the operands of a binary operation left to right, and both of them whatever
+// their values. A template that places the right operand's hole before the left one's, or the left one's
+// behind a `?`, changes the order of (or drops) the operand's side effects: `x() << n()` printed "n" before
+// "x", and did not call x at all for n >= 32. Such a template is only sound where the left operand is known
+// to have no side effects.
+func ruleOperandOrder(c *ctx.Ctx, r *core.Reporter) {
+	r.Begin("C01.operand-order", "F-PAIR", "in every expression template that takes e.X and e.Y, the first hole of e.X precedes the first hole of e.Y and any `?`, unless the site is guarded by the absence of side effects in e.X", 2)
+	info := c.Pkg("compiler").TypesInfo
+	holeRe := regexp.MustCompile(`⟨(\d+)⟩`)
+	n := 0
+	var bad []string
+	badSite := ""
+	for _, t := range usableTemplates(c) {
+		if t.Call == nil || (t.Sink != "formatExpr" && t.Sink != "formatParenExpr") {
+			continue
+		}
+		fd := c.FuncDecl("compiler", t.Func)
+		if fd == nil {
+			continue
+		}
+		args := t.FmtArgs()
+		role := func(a ast.Expr) string {
+			s := exprStr(a)
+			switch s {
+			case "e.X":
+				return "X"
+			case "e.Y":
+				return "Y"
+			}
+			if id, ok := a.(*ast.Ident); ok {
+				derived := false
+				for _, d := range localAssignments(fd, id.Name) {
+					if strings.Contains(exprStr(d.rhs), "e.Y") {
+						derived = true
+					}
+				}
+				if derived {
+					return "Y"
+				}
+			}
+			return ""
+		}
+		// an argument used by more than one expression hole is hoisted into a temporary in front of the
+		// template, in argument order (formatExprInternal): its place in the text does not matter
+		uses := map[int]int{}
+		for _, h := range t.Holes {
+			switch h.Verb {
+			case 'e', 'f', 'h', 'l', 'r', 'i':
+				uses[h.Index]++
+			}
+		}
+		first := map[string]int{}
+		for _, m := range holeRe.FindAllStringSubmatchIndex(t.Text, -1) {
+			k, _ := strconv.Atoi(t.Text[m[2]:m[3]])
+			if k < 0 || k >= len(t.Holes) {
+				continue
+			}
+			h := t.Holes[k]
+			if h.Index < 0 || h.Index >= len(args) {
+				continue
+			}
+			ro := role(args[h.Index])
+			if ro == "" {
+				continue
+			}
+			if ro == "X" {
+				if tv, ok := info.Types[args[h.Index]]; !ok || !strings.Contains(tv.Type.String(), "ast.") {
+					continue
+				}
+			}
+			at := m[0]
+			if uses[h.Index] > 1 {
+				at = -1000 + h.Index
+			}
+			if prev, seen := first[ro]; !seen || at < prev {
+				first[ro] = at
+			}
+		}
+		px, okx := first["X"]
+		py, oky := first["Y"]
+		if !okx || !oky {
+			continue
+		}
+		n++
+		q := strings.Index(t.Text, "?")
+		wrong := px > py || (q >= 0 && px > q)
+		if !wrong {
+			continue
+		}
+		pure := false
+		for _, g := range guardsAt(fd.Body, t.Call.Pos()) {
+			s := squash(exprStr(g.Cond))
+			if strings.Contains(s, "HasSideEffect(e.X") && strings.HasPrefix(s, "!") && !g.Negated {
+				pure = true
+			}
+			if strings.Contains(s, "HasSideEffect(e.X") && !strings.HasPrefix(s, "!") && g.Negated {
+				pure = true
+			}
+		}
+		if !pure {
+			bad = append(bad, fmt.Sprintf("%s `%s`", c.Pos(t.Pos), t.Text))
+			if badSite == "" {
+				badSite = c.Pos(t.Pos)
+			}
+		}
+	}
+	if badSite == "" {
+		badSite = "compiler/expressions.go"
+	}
+	r.Check(len(bad) == 0, "order", badSite, fmt.Sprintf("%d templates take both operands; in each the left operand comes first and unconditionally, or the site is guarded by !HasSideEffect(e.X)%s", n, ternary(len(bad) > 0, fmt.Sprintf(" — the right operand is evaluated first, or the left one only on one branch: %v", bad), "")))
+	r.Check(n >= 20, "templates", "compiler", fmt.Sprintf("%d two-operand templates examined", n))
 }
